@@ -107,7 +107,7 @@ func init() {
 	props["C02"] = propCheck{run: func(env *Env, rep *Report) {
 		all := genC02()
 		rep.Rule = "every case is `[BITS m]` + one carrier instruction (MOV/ALU load, store, store-immediate, NOT, shift, PUSH, POP, accumulator moffs) whose memory operand is one point of the complete addressing space " +
-			"(16-bit: BX/BP x SI/DI, single base, absolute; 32-bit: base in 8 regs or none x index in 7 regs or none x scale 1/2/4/8; x displacement in {none, 0, +-1, 127, 128, -128, -129, 255, 256, 0x7fff, 0x8000, -0x8000, 0x12345678} and 16-bit wrap-around spellings), in 4 spellings; " +
+			"(16-bit: BX/BP x SI/DI, single base, absolute; 32-bit: base in 8 regs or none x index in 7 regs or none x scale 1/2/4/8; x displacement in {none, 0, +-1, 127, 128, -128, -129, 255, 256, 0x7fff, 0x8000, -0x8000, 0x12345678} and 16-bit wrap-around spellings; absolute addresses also as negative numbers -1,-2,-128,-129,-0x8000, which designate the address they wrap to at the mode's address width), in 4 spellings; " +
 			"non-trivial = assembled without diagnostic and the memory operand decoded by the reference decoder (objdump cross-checked); distinct = (addressing class, displacement class, carrier, width, mode) cells"
 		cases := all
 		if env.Tier == "quick" {
